@@ -557,7 +557,15 @@ def cli_violation(ctx, r, what):
     return (what + ": " + " ".join(r["args"][:-2])[:120] + " exit=%s" % r["run"]["rc"], rp, False)
 
 
-VARIANTS_C10 = [dict(threads=1, rooms="list", print=False), dict(threads=2, rooms="file", print=True), dict(threads=4, rooms="list", print=True)]
+VARIANTS_C10 = [dict(threads=1, rooms="list", print=False, report=True), dict(threads=2, rooms="file", print=True), dict(threads=4, rooms="list", print=True)]
+
+
+def c10_extra(ctx, cases):
+    """the CLI stage on simple-format instances plus a CdE stage: well-formed exports with dense existing assignments (over-booked courses included)
+    under the ignore options must end normally"""
+    v1, k1 = c10_cli(ctx, cases)
+    v2, k2 = e2e_checks(ctx, "C10", ctx.seed + 10, 60 if ctx.tier == "quick" else 500, c11_opts, "C10", cov_key="cli_runs_cde")
+    return (v1 + [v for v in v2 if "crashes / hangs" in v[0]])[:4], k1 + k2
 
 
 def c10_cli(ctx, cases):
@@ -1709,7 +1717,7 @@ REGISTRY = {
         assumptions=["effective sizes in binary32 (Flocq) as in C06"]),
 
     "C10": dict(mk(spec_c10, streams_c10, RULE_NS + "; CLI stream: the real binary (debug build) on generated simple-format files incl. "
-                   "over-subscribed and infeasible instances, 1/2/4 threads, --rooms / --rooms-file, --print", extra_fn=c10_cli), allow_axioms=(),
+                   "over-subscribed and infeasible instances, 1/2/4 threads, --rooms / --rooms-file, --print", extra_fn=c10_extra), allow_axioms=(),
         explanation="C10_never_hangs (the subproblem tree is finite: a height drops along every child; with C04_no_deadlock every run ends); "
                     "C10_fixed_node / _fixed_total / _fixed_answered (current code: no panic site 1-10 is reachable for any generated subproblem, "
                     "every subproblem is answered, no worker dies -- hypotheses: valid instance and the size bound the program checks itself); "
